@@ -52,6 +52,12 @@ impl FB for FImp { fn fb(&self, a: u64) -> u64 { step(self.st, self.id, 22, 7, a
 impl FC for FImp { fn fc(&self, a: u64) -> u64 { step(self.st, self.id, 23, 9, a) } }
 cglue_trait_group!(GF, FBase, { FA, FB, FC });
 cglue_impl_group!(FImp, GF, { FA, FB }, { FA });
+/// the same with an explicitly EMPTY forward list: groups over the forward offer no optional trait
+pub struct FImp0 { pub id: u64 }
+impl FBase for FImp0 { fn fbase(&self, a: u64) -> u64 { self.id ^ a } }
+impl FA for FImp0 { fn fa(&self, a: u64) -> u64 { self.id ^ a ^ 1 } }
+impl FB for FImp0 { fn fb(&self, a: u64) -> u64 { self.id ^ a ^ 2 } }
+cglue_impl_group!(FImp0, GF, { FA, FB }, {});
 
 /// group with Clone among the optional traits: a `-> Self` method on a subset cast must keep the others
 #[derive(Clone)]
@@ -152,6 +158,22 @@ mod verif {
             }
         }
         kani::cover!(which == 2, "forward");
+    }
+    #[kani::proof]
+    #[kani::unwind(14)]
+    fn p_cast_forward_list_empty() {
+        // four-argument impl with an explicitly empty forward list: the type's own groups offer
+        // the owned list, a group over Fwd<&mut T> offers NO optional trait (null slots)
+        let (id, a): (u64, u64) = kani::any();
+        let g = group_obj!(FImp0 { id } as GF);
+        assert!(check!(g impl FA) && check!(g impl FB) && !check!(g impl FC), "C08 boxed group: exactly the traits enabled for the type (empty forward list)");
+        assert!(as_ref!(g impl FB).unwrap().fb(a) == id ^ a ^ 2);
+        let mut inst = FImp0 { id };
+        let gf: GFBaseBox<cglue::forward::Fwd<&mut FImp0>> = From::from(cglue::forward::Fwd(&mut inst));
+        assert!(!check!(gf impl FA) && !check!(gf impl FB) && !check!(gf impl FC), "C08 group over the forward with an EMPTY forward list: no optional trait is offered");
+        let w = words(&gf);
+        assert!(w[1] == 0 && w[2] == 0 && w[3] == 0, "C08 and its optional vtable slots are null");
+        kani::cover!(true, "end");
     }
     #[kani::proof]
     #[kani::unwind(14)]
